@@ -1002,6 +1002,10 @@ class NumpyModel:
                     out = out.w(axes=('one', 'flat') if consts == [1, -1] else ('flat', 'one'))
                 elif consts == [-1]:
                     out = out.w(axes=('flat',))
+                elif args and args[0].shapeof is not None:
+                    out = out.w(axes=args[0].shapeof.axes, reshaped_like=True)
+                elif len(shape) >= 1 and all(s.shape_of for s in shape):
+                    out = out.w(axes=tuple(s.shape_of[0] for s in shape))
                 else:
                     out = out.w(axes=None, reshaped=tuple(shape))
             else:
